@@ -22,7 +22,7 @@ PROP = "C10"
 RULE = (
     "classes with 3 fields (a_x required, b aliased 'bee' with default, c with default) and 1..2 validators (plus 3 on "
     "a reduced alphabet: 12 (deps, kind) descriptors in quick, 16 in thorough): each validator has an enumerated dependency set (every non-empty subset of the fields, read "
-    "directly, through a helper method or through a property), a kind in {plain, validator(field), validator(discard=g) for "
+    "directly, through a helper method, through a property, or through a diamond of helper methods shared by the validators), a kind in {plain, validator(field), validator(discard=g) for "
     "every field g}, an error style in {raise, yield message, yield (get_alias(self).f, message)}, declared in the class or "
     "in a base class; x every datum assigning each field one of {absent, valid, invalid} x every pass/fail vector x aliaser "
     "in {identity, camelCase}. Observed: the exact sequence of validators invoked (each logs its name first), the sorted "
@@ -59,7 +59,10 @@ def validator_src(name: str, deps, kind, style, by_name: bool = False) -> List[s
         L.append(f"    @validator(discard={t})")
     L.append(f"    def {name}(self):")
     L.append(f"        LOG.append({name!r})")
-    L.append("        _ = (" + ", ".join(READ[d] for d in deps) + ",)")
+    # a_x is read through a diamond of helpers by the first validator (via1 -> h_ax <- via2) and through one
+    # branch only by the others: the dependency analysis of a helper must not depend on who asked first
+    read_ax = {"v0": "(self.via1(), self.via2())[0]", "v1": "self.via2()", "v2": "self.via1()"}.get(name, "self.a_x")
+    L.append("        _ = (" + ", ".join((read_ax if d == "a_x" else READ[d]) for d in deps) + ",)")
     if style == "raise":
         L.append(f"        if SWITCH[{name!r}]:")
         L.append(f"            raise ValidationError({name + ' failed'!r})")
@@ -80,6 +83,12 @@ def class_src(cname: str, vals: List[tuple], inherit: bool) -> str:
         "    b: int = field(default=0, metadata=alias('bee'))",
     ]
     helpers = [
+        "    def h_ax(self):",
+        "        return self.a_x",
+        "    def via1(self):",
+        "        return self.h_ax()",
+        "    def via2(self):",
+        "        return self.h_ax()",
         "    def helper_b(self):",
         "        return self.b",
         "    @property",
@@ -94,12 +103,12 @@ def class_src(cname: str, vals: List[tuple], inherit: bool) -> str:
         L.append("@dataclass")
         L.append(f"class B{cname}:")
         L += head
-        L += helpers[:2]
+        L += helpers[:8]
         L += validator_src(*vals[0])
         L.append("@dataclass")
         L.append(f"class {cname}(B{cname}):")
         L.append("    c: int = field(default=0)")
-        L += helpers[2:]
+        L += helpers[8:]
         for v in vals[1:]:
             L += validator_src(*v, by_name=True)
     else:
